@@ -173,8 +173,8 @@ def genemetrics_by_segment(bins, segments, threshold, min_probes, part="named", 
     out = []
     spans = gene_groups(bins, nongenes)
     for chrom, s, e, log2 in segments:
-        r = reaches(log2, threshold)
-        if r is False:
+        r = abs(log2) >= threshold  # a segment's log2 is given, not computed: no rounding latitude
+        if not r:
             continue
         inside = [i for i, b in enumerate(bins) if b[CHROM] == chrom and b[START] < e and b[END] > s]
         inset = set(inside)
@@ -194,7 +194,7 @@ def genemetrics_by_segment(bins, segments, threshold, min_probes, part="named", 
             n = row["probes"] if minp == "part" else len(inside)
             if n < min_probes:
                 continue
-            out.append((row, True if r else None))
+            out.append((row, True))
     return out
 
 
